@@ -248,10 +248,17 @@ def r04c(model: Model, rr: RuleResult):
     else:
         rr.bad_shape(g, g.node, "glyph id bookkeeping changed", construct="_generate_color_font: gid bookkeeping")
     cr = [c for c in calls_in(g) if norm(c.func) == "ColorGlyph.create"]
-    if cr and [norm(x) for x in cr[0].args[3:6]] == ["gid", "glyph_input.glyph_name", "glyph_input.codepoints"] and norm(cr[0].args[6]) == "glyph_input.svg":
+    from ..model import arg as _arg
+    got = [(_arg(cr[0], i, nm)) for i, nm in ((3, "glyph_id"), (4, "ufo_glyph_name"), (5, "codepoints"), (6, "svg"))] if cr else []
+    gt = [norm(x) if x is not None else None for x in got]
+    if cr and gt[1:] == ["glyph_input.glyph_name", "glyph_input.codepoints", "glyph_input.svg"] and gt[0] == "gid":
         rr.ok("ColorGlyph.create(gid, glyph name, codepoints, svg) of the same input")
-    else:
+    elif cr and gt[1:] == ["glyph_input.glyph_name", "glyph_input.codepoints", "glyph_input.svg"]:
+        rr.bad_shape(g, g.node, "ColorGlyph.create does not receive the gid/name/codepoints/svg of one input", construct="ColorGlyph.create args")
+    elif cr and all(x is not None for x in gt) and any(x.endswith(sfx) and not x.startswith("glyph_input.") for x, sfx in zip(gt[1:], (".glyph_name", ".codepoints", ".svg"))):
         rr.bad(g, g.node, "ColorGlyph.create does not receive the gid/name/codepoints/svg of one input", construct="ColorGlyph.create args")
+    else:
+        rr.bad_shape(g, g.node, "ColorGlyph.create does not receive the gid/name/codepoints/svg of one input", construct="ColorGlyph.create args")
 
 
 @RULES.rule("C04", "R04d", "advance = max(configured width, proportional width) whenever a viewBox exists", floor=2)
